@@ -404,6 +404,13 @@ func (env *Env) quant(n *EQuant) Val {
 			if ty == nil {
 				fail("unknown type %q", qv.Type)
 			}
+			if mt, ok := ty.Underlying().(*types.Map); ok {
+				// a quantified map is a mathematical (total) array, not a heap reference
+				srt := "(Array " + env.e.sorts().SortOf(mt.Key()) + " " + env.e.sorts().SortOf(mt.Elem()) + ")"
+				binds = append(binds, fmt.Sprintf("(%s %s)", name, srt))
+				c.vars[qv.Name] = Val{T: name, Sort: srt}
+				continue
+			}
 			binds = append(binds, fmt.Sprintf("(%s %s)", name, env.e.sorts().SortOf(ty)))
 			c.vars[qv.Name] = Val{T: name, Ty: ty}
 		}
@@ -594,6 +601,14 @@ func (env *Env) callSpec(n *ECall) Val {
 			old = env.e.initState
 		}
 		return Val{T: sx(">", t, env.e.heapIn(old, AllocVar)), Ty: tBool}
+	case "allocated":
+		// allocated(x): the reference held in x denotes an object that exists in the state the clause speaks about
+		v := arg(0)
+		t := v.T
+		if env.sortOf(v) == "Slice" {
+			t = sx("sref", v.T)
+		}
+		return Val{T: and(sx("<=", "0", t), sx("<=", t, env.e.heapIn(env.st, AllocVar))), Ty: tBool}
 	case "freshSincePre":
 		v := arg(0)
 		t := v.T
